@@ -97,6 +97,10 @@ func read(pf func() *parser.Parser, lastEventID string, onRetry func(int64), ign
 				lastEventID = f.Value
 				dirty = true
 			case parser.FieldNameRetry:
+				// Only ASCII digits make a valid retry value (ParseInt alone would also accept a sign).
+				if strings.IndexFunc(f.Value, func(r rune) bool { return r < '0' || r > '9' }) != -1 {
+					break
+				}
 				n, err := strconv.ParseInt(f.Value, 10, 64)
 				if err != nil {
 					break
